@@ -565,3 +565,171 @@ func checkC19Namespaces(c *Ctx, n int) {
 		})
 	}
 }
+
+// ---------------------------------------------------------------- C19, containers with a conversion of their own
+
+// struct types that are used as containers (group / command / positional-args) although the type (or
+// a pointer to it) also implements flags.Unmarshaler — directly, through a value receiver, or promoted
+// from an embedded field.  What such a field declares is decided by its tag, not by its method set.
+type ucEndpoint struct {
+	Host string `long:"host" short:"H" default:"localhost" description:"host name"`
+	Port int    `long:"port" default:"80"`
+}
+
+func (e *ucEndpoint) UnmarshalFlag(v string) error { e.Host = v; return nil }
+
+type ucValueRecv struct {
+	Host string `long:"host" short:"H" default:"localhost" description:"host name"`
+	Port int    `long:"port" default:"80"`
+}
+
+func (e ucValueRecv) UnmarshalFlag(v string) error { return nil }
+
+type ucBase struct{ raw string }
+
+func (b *ucBase) UnmarshalFlag(v string) error { b.raw = v; return nil }
+
+type ucPromoted struct {
+	ucBase
+	Host string `long:"host" short:"H" default:"localhost" description:"host name"`
+	Port int    `long:"port" default:"80"`
+}
+
+type ucArgs struct {
+	File string   `positional-arg-name:"file" description:"the file"`
+	Rest []string `positional-arg-name:"rest"`
+}
+
+func (a *ucArgs) UnmarshalFlag(v string) error { a.File = v; return nil }
+
+type ucBroken struct {
+	Host string `long:"host`
+}
+
+func (e *ucBroken) UnmarshalFlag(v string) error { return nil }
+
+func checkC19Containers(c *Ctx, n int) {
+	r := c.Rng
+	containers := []reflect.Type{reflect.TypeOf(ucEndpoint{}), reflect.TypeOf(ucValueRecv{}), reflect.TypeOf(ucPromoted{})}
+	for i := 0; i < n; i++ {
+		role := []string{"group", "command", "positional", "broken-group", "broken-command", "plain-struct"}[r.Intn(6)]
+		ptr := r.Intn(2) == 0
+		var t reflect.Type
+		var tag string
+		ns := []string{"", "up", "é"}[r.Intn(3)]
+		alias := []string{"", "sv"}[r.Intn(2)]
+		switch role {
+		case "group":
+			t = containers[r.Intn(len(containers))]
+			tag = `group:"Upstream"`
+			if ns != "" {
+				tag += " " + quoteTag("namespace", ns)
+			}
+		case "command":
+			t = containers[r.Intn(len(containers))]
+			tag = `command:"serve" description:"serve it"`
+			if alias != "" {
+				tag += " " + quoteTag("alias", alias)
+			}
+		case "positional":
+			t = reflect.TypeOf(ucArgs{})
+			tag = `positional-args:"yes"`
+		case "broken-group":
+			t = reflect.TypeOf(ucBroken{})
+			tag = `group:"Upstream"`
+		case "broken-command":
+			t = reflect.TypeOf(ucBroken{})
+			tag = `command:"serve"`
+		case "plain-struct":
+			// no tag at all: the options declared inside belong to the enclosing group
+			t = containers[r.Intn(len(containers))]
+		}
+		ft := t
+		if ptr {
+			ft = reflect.PtrTo(t)
+		}
+		fields := []reflect.StructField{
+			{Name: "Verbose", Type: reflect.TypeOf(false), Tag: `long:"verbose" short:"v"`},
+			{Name: "Box", Type: ft, Tag: reflect.StructTag(tag)},
+		}
+		if r.Intn(2) == 0 {
+			fields[0], fields[1] = fields[1], fields[0]
+		}
+		st := reflect.StructOf(fields)
+		v := reflect.New(st)
+		var err error
+		var p *flags.Parser
+		var found []string
+		pan := safe(func() {
+			p = flags.NewParser(nil, flags.None)
+			_, err = p.AddGroup("Application Options", "", v.Interface())
+			if err != nil {
+				return
+			}
+			host := "host"
+			var where *flags.Command = p.Command
+			switch role {
+			case "group":
+				if ns != "" {
+					host = ns + "." + host
+				}
+				if g := p.Command.Group.Find("Upstream"); g != nil {
+					found = append(found, "group Upstream")
+				}
+			case "command":
+				if cmd := p.Find("serve"); cmd != nil {
+					where = cmd
+					found = append(found, "command serve aliases="+strings.Join(cmd.Aliases, ","))
+				}
+			case "positional":
+				for _, a := range p.Args() {
+					found = append(found, "arg "+a.Name)
+				}
+				return
+			}
+			if o := where.FindOptionByLongName(host); o != nil {
+				found = append(found, fmt.Sprintf("option --%s short=%c default=%q description=%q", o.LongNameWithNamespace(), o.ShortName, o.Default, o.Description))
+			}
+			if o := where.FindOptionByLongName(strings.Replace(host, "host", "port", 1)); o != nil {
+				found = append(found, fmt.Sprintf("option --%s default=%q", o.LongNameWithNamespace(), o.Default))
+			}
+		})
+		c.R.Evaluations++
+		desc := fmt.Sprintf("field Box of type %s, tag `%s`", ft, tag)
+		c.Distinct("container|" + desc + fmt.Sprint(fields[0].Name))
+		c.Class("c19/container role=" + role + fmt.Sprintf(" pointer=%v", ptr))
+		in := map[string]interface{}{"declaration": desc, "the_type_implements_Unmarshaler": true}
+		got := strings.Join(found, "; ")
+		if pan != nil {
+			got = fmt.Sprintf("panic: %v", pan)
+		} else if fe, ok := err.(*flags.Error); ok {
+			got = fmt.Sprintf("*flags.Error type %d: %s", fe.Type, fe.Message)
+		} else if err != nil {
+			got = "error: " + err.Error()
+		}
+		var want []string
+		switch role {
+		case "group":
+			h := "host"
+			if ns != "" {
+				h = ns + ".host"
+			}
+			want = []string{"group Upstream", fmt.Sprintf("option --%s short=H default=%q description=%q", h, []string{"localhost"}, "host name"),
+				fmt.Sprintf("option --%s default=%q", strings.Replace(h, "host", "port", 1), []string{"80"})}
+		case "command":
+			want = []string{"command serve aliases=" + alias, fmt.Sprintf("option --host short=H default=%q description=%q", []string{"localhost"}, "host name"),
+				fmt.Sprintf("option --port default=%q", []string{"80"})}
+		case "positional":
+			want = []string{"arg file", "arg rest"}
+		case "plain-struct":
+			want = []string{fmt.Sprintf("option --host short=H default=%q description=%q", []string{"localhost"}, "host name"),
+				fmt.Sprintf("option --port default=%q", []string{"80"})}
+		}
+		if strings.HasPrefix(role, "broken") {
+			fe, ok := err.(*flags.Error)
+			c.Check("malformed-tag-inside-a-container-is-refused", pan == nil && ok && fe.Type == flags.ErrTag, "C19:container", in, got, "ErrTag")
+			continue
+		}
+		c.Check("container-field-declares-what-its-tag-says", pan == nil && err == nil && got == strings.Join(want, "; "), "C19:container", in, got, strings.Join(want, "; "))
+	}
+}
